@@ -245,6 +245,7 @@ class HelperInterp(AlgoInterp):
         self.ivars = {}                     # polynomial variable -> z3 Int
         self.cvars = {}                     # 'c0'/'c1' -> bit-vector variable
         self.ntests = {}                    # loop mode: Bool variable -> (Lin or PendLin) tested
+        self.digit_info = {}                # digit index -> [(stream, variable, its range assumption)]
         self.direct_calls = []              # direct mode: (token, receiver Lin, u, v) of the two-scalar routine
         self.on_cut = None
         self.prune = (mode != "glue")       # glue paths are few: infeasible ones are discarded by counted queries
@@ -557,6 +558,7 @@ class HelperInterp(AlgoInterp):
                 continue
             D = z3.Int("e%d_%d" % (idx, j))
             self.assumptions.append(z3.Or(D == 0, z3.And(D % 2 == 1, D >= -15, D <= 15)))
+            self.digit_info.setdefault(j, []).append((idx, D, self.assumptions[-1]))
             ds.append(SymV(z3.Int2BV(D, 8), 8, True, D))
         self.streams.append((ds, None))
         if len(self.rec_calls) == self.hs.nrec and self.on_cut is not None:
@@ -1039,7 +1041,12 @@ def native_helper_check(K4, models_mod, rp, curve, order, rng, ks, count):
         Qp = m.c_rand(rng)
         s = rng.randrange(order)
         Rt = m.c_add(K4.c_mul(m, s, B), m.c_neg(K4.c_mul(m, k, Qp)))
-        for truth, Rp in ((True, Rt), (False, m.c_add(Rt, B))):
+        variants = [(True, Rt), (False, m.c_add(Rt, B))]
+        if HELPERS[curve].cof > 1 and what != "random":
+            # equations that hold only up to the cofactor
+            for _, t in m.c_special()[1:]:
+                variants.append((True, m.c_add(Rt, t)))
+        for truth, Rp in variants:
             fq = m.c_embed(Qp, m.c_scalar(rng))
             fr = m.c_embed(Rp, m.c_scalar(rng))
             lines.append("%s vh 0 %s %s %s" % (curve, " ".join(int(x).to_bytes(EL, "little").hex() for x in fq + fr),
@@ -1246,11 +1253,16 @@ def loop_chunk(mir, cfg, curve, order, lo, hi, Lloop):
         stt, _, _ = decide(it.assumptions + list(it.path) + ([zc] if zc is not True else []), goal, Z3_TIMEOUT_MS)
         return True if stt == "unsat" else None
 
-    def havoc(fr, tag):
+    havocs = {}
+
+    def havoc(fr, tag, col):
         gens = st["gens"]
         N = z3.Int("N_%s" % tag)
         it.assumptions.append(z3.And(N >= 0, N <= 100000))
         W = Lin({g: z3.Int("W_%s_%s_%d" % (tag, g[0], g[1])) for g in gens})
+        havocs[col] = [(N, it.assumptions[-1])] + [(w, None) for w in W.c.values()]
+        if hs.flag:
+            havocs[col].append((z3.Bool("zz_%s" % tag), None))
         fr.cell(fr.debug_local("ndbl")).val = SymV(z3.Int2BV(N, 32), 32, False, N)
         if hs.flag:
             zzv = z3.Bool("zz_%s" % tag)
@@ -1298,10 +1310,10 @@ def loop_chunk(mir, cfg, curve, order, lo, hi, Lloop):
                 raise PathEnd()
         it.path = []
         if col is not None and lo <= col <= hi:
-            V = havoc(fr, "c%d" % col)
+            V = havoc(fr, "c%d" % col, col)
             st["cur"] = dict(col=col, V=V)
         elif col is None and lo == 0:
-            V = havoc(fr, "fin")
+            V = havoc(fr, "fin", -1)
             st["cur"] = dict(col=-1, V=V)
         else:
             park(fr)
@@ -1326,18 +1338,64 @@ def loop_chunk(mir, cfg, curve, order, lo, hi, Lloop):
     S.set("timeout", int(Z3_TIMEOUT_MS))
     for a_ in it.assumptions:
         S.add(a_)
+    # Columns of one regime give the same lemmas up to the names of their variables.  A lemma is first looked up
+    # (and decided) in canonical form: variables of the column renamed position-independently, assumptions
+    # restricted to those over the lemma's own variables.  Only `unsat` is ever cached, and `unsat` on a subset
+    # of the assumptions is valid for all of them; anything else falls back to the full query.
+    cache = {}
+    canon = {}
+    res["cache_hits"] = 0
 
-    def ask(assum, goal):
-        # one incremental solver per chunk: the digit / state assumptions are shared by all path lemmas
+    def canonical(col):
+        """renaming of the column's own variables (digits, havoc'd state) and their range assumptions"""
+        if col in canon:
+            return canon[col]
+        pairs, rel = [], []
+        m = 0
+        while col + m * ncol in it.digit_info or col + m * ncol < max(it.digit_info, default=0):
+            for idx, D, asm in it.digit_info.get(col + m * ncol, []):
+                pairs.append((D, z3.Int("e%d@%d" % (idx, m))))
+                rel.append(asm)
+            m += 1
+        hv = havocs.get(col)
+        if hv is not None:
+            for v, asm in hv:
+                nm = v.decl().name().replace("_c%d" % col, "@", 1)
+                pairs.append((v, z3.Bool(nm) if z3.is_bool(v) else z3.Int(nm)))
+                if asm is not None:
+                    rel.append(asm)
+        canon[col] = (pairs, rel)
+        return canon[col]
+
+    def ask(assum, goal, col=None):
         t1 = time.time()
+        res["queries"] += 1
+        extra = list(assum[base_n:])
+        if col is not None and 0 <= col < ncol:
+            cn = canonical(col)
+            if cn is not None:
+                pairs, rel = cn
+                f = z3.substitute(z3.And(rel + extra + [z3.Not(goal)]), *pairs) if pairs else None
+                if f is not None:
+                    key = f.sexpr()
+                    if cache.get(key):
+                        res["cache_hits"] += 1
+                        res["secs"] += time.time() - t1
+                        return "unsat"
+                    s2 = z3.Solver()
+                    s2.set("timeout", int(Z3_TIMEOUT_MS))
+                    s2.add(f)
+                    if s2.check() == z3.unsat:
+                        cache[key] = True
+                        res["secs"] += time.time() - t1
+                        return "unsat"
         S.push()
-        for a_ in assum[base_n:]:
+        for a_ in extra:
             S.add(a_)
         S.add(z3.Not(goal))
         stt = str(S.check())
         S.pop()
         res["secs"] += time.time() - t1
-        res["queries"] += 1
         return stt
 
     def column_value(col):
@@ -1366,7 +1424,7 @@ def loop_chunk(mir, cfg, curve, order, lo, hi, Lloop):
             res["fails"].append("%s: the accumulator is not the neutral while the flag is set" % label)
         keys = set(V1.c) | set(want.c)
         goal = z3.And([_iv(V1.get(g)) == _iv(want.get(g)) for g in sorted(keys)])
-        stt = ask(it.assumptions + path, goal)
+        stt = ask(it.assumptions + path, goal, col)
         res["checked"] += 1
         if stt == "sat":
             res["fails"].append("%s: V' != 2V + D on a feasible path" % label)
@@ -1537,11 +1595,16 @@ NCHUNK = 64
 KEYFMT = "%s.verify_helper_vartime"
 
 
-def plan(mir, cfgfn, order_of, tier, curve_sel, Obligation):
+def plan(mir, cfgfn, order_of, tier, curve_sel, Obligation, parts=("glue", "loop")):
     """(obligations, tasks, meta).  tasks are tuples starting with 'h...' for `work`"""
     obs, tasks, meta = [], [], []
     glue_curves = [c for c in HELPERS if c in curve_sel] or list(HELPERS)
-    loop_curves = [c for c in LOOP_CURVES if c in curve_sel] or (LOOP_QUICK if tier == "quick" else LOOP_CURVES)
+    loop_curves = [c for c in LOOP_CURVES if c in curve_sel] or (
+        [] if curve_sel else (LOOP_QUICK if tier == "quick" else LOOP_CURVES))
+    if "glue" not in parts:
+        glue_curves = []
+    if "loop" not in parts:
+        loop_curves = []
     for c in glue_curves:
         hs = HELPERS[c]
         if hs.kind == "direct":
@@ -1610,7 +1673,7 @@ def plan(mir, cfgfn, order_of, tier, curve_sel, Obligation):
         for lo in range(0, ncol, step):
             mine.append(len(tasks))
             tasks.append(("hloop", c, lo, min(ncol - 1, lo + step - 1), L))
-        meta.append(("hloop", o, mine, c, ncol))
+        meta.append(("hloop", o, mine, c, ncol, L))
     return obs, tasks, meta
 
 
@@ -1714,7 +1777,9 @@ def collect(meta, tasks, res, z3_version):
                 init = init or v["init"]
             solver = "%s (unsat on %d queries: %d path lemmas over %d columns + side conditions)" % (
                 z3_version, q, paths, ncol)
-            missing = [i for i in list(range(ncol + 1)) + [-1] if i not in cols]
+            # loop columns, the segment before the loop (label ncol; it holds the columns above the loop's), the
+            # segment after it (label -1)
+            missing = [i for i in list(range(entry[5])) + [ncol, -1] if i not in cols]
             if not fails and not unk:
                 if missing or not finals:
                     merr = merr or "%s: no path lemma for columns %r" % (o.name, missing[:8])
